@@ -17,6 +17,25 @@ CHECKS = {
         "note": NOTE_COMMON + "Bounds: quick k in {1..5,15,16,30,31}+2 rotated, thorough every k in 1..=31; N = k+6 (k<=8) or k+3.",
         "technique": TECH,
     },
+    "C02": {
+        "text": "For every concrete k in the table and EVERY code x < 4^k (symbolic 64-bit x) the solver shows rev_comp is an involution, stays below 4^k and "
+        "equals the code of the reverse-complemented text; numeric_to_kmer decodes to exactly k ACGT letters that re-encode to x (small k only); and for all "
+        "byte strings up to k+3 the real iterator's stream on the reverse-complemented string is the reversed stream with strands swapped, second = rev_comp(first), "
+        "canonical k-mers equal.",
+        "design_ref": "DESIGN.md section 3 / C02",
+        "note": NOTE_COMMON + "Bounds: rev_comp every k 1..=31 (thorough) / 13 values (quick), all codes; decode k<=2 (k=3 attempted in thorough); stream k in {1,2,3,4,5,8}(+15,16,31), N=k+3.",
+        "technique": TECH,
+    },
+    "C09": {
+        "text": "For each (w,m) in the bound table and each length L, for every byte string of that length the solver shows the real MinimiserGenerator emits exactly "
+        "the oracle's maximal runs (minimiser, start, end), left to right, and nothing else (no placeholder). Found two genuine defects on the original tree "
+        "(last run dropped; u64::MAX emitted for a tail in [m,w)), both replayed natively and repaired by a fix: commit.",
+        "design_ref": "DESIGN.md section 3 / C09",
+        "note": NOTE_COMMON + "std VecDeque is replaced under cfg(kani) by a fixed-capacity ring model (capacity overflow is a reported failure); "
+        "per-loop unwind bounds for the `for j in 0..buff.len()` loops are discovered from the goto binary, unwinding assertions stay on. "
+        "Bounds: (w,m) in {(1,1),(2,1),(2,2),(3,2),(3,3),(4,2),(5,3)}, L = 0..=w+3 (quick); + (4,1),(6,3),(6,5),(8,5),(31,31),(32,31) (thorough).",
+        "technique": TECH,
+    },
 }
 
 NOT_APPLICABLE = {
@@ -30,7 +49,7 @@ NOT_APPLICABLE = {
 
 # properties whose checks are not built yet are listed as not applicable *for now* with that reason
 NOT_BUILT = "check not built yet in this round (planned, see DESIGN.md section 3)"
-for _p in ("C02", "C03", "C04", "C06", "C08", "C09", "C11", "C12", "C13", "C14", "C18"):
+for _p in ("C03", "C04", "C06", "C08", "C11", "C12", "C13", "C14", "C18"):
     NOT_APPLICABLE.setdefault(_p, NOT_BUILT)
 
 NOTES = (
